@@ -466,17 +466,23 @@ class Gen:
                       ('heartbeat', 1))
         kinds = [k for k, w in mix for _ in range(w)]
         k = r.choice(kinds)
-        if k == 'method':
-            return self.method_frame(marker)
-        if k == 'header':
-            return self.header_frame(marker)
-        if k == 'body':
-            return self.body_frame(marker, max_body)
+        if k in ('method', 'header', 'body'):
+            d = self.method_frame(marker) if k == 'method' else \
+                self.header_frame(marker) if k == 'header' else \
+                self.body_frame(marker, max_body)
+            if r.random() < 0.05 and not d.get('noprops') and \
+                    d.get('text') is None:
+                # the application builds the object first and fills it in
+                # afterwards, attribute by attribute
+                d['via_setattr'] = True
+            return d
         if k == 'protocol':
             return {'k': 'protocol',
                     'v': [r.choice([0, 0, 1, 9, 255, r.randint(0, 255)])
                           for _ in range(3)]}
-        return {'k': 'heartbeat', 'ch': 0}
+        # (the pinned encoder ignores the channel of a heartbeat; the
+        # producer asks for one anyway, as an application may)
+        return {'k': 'heartbeat', 'ch': r.choice([0, 0, 0, 1, 7, r.getrandbits(16)])}
 
 
 _ARG_MODE_CACHE = {}
@@ -520,11 +526,26 @@ def build_frame(desc):
     if k == 'method':
         cls = classes()[desc['cls']]
         kwargs = {n: from_desc(v) for n, v in desc['args'].items()}
+        if desc.get('via_setattr'):
+            # built with its defaults, then filled in attribute by attribute
+            obj = cls()
+            for n, v in kwargs.items():
+                setattr(obj, n, v)
+            return obj, ch
         return cls(**kwargs), ch
     if k == 'header' and desc.get('noprops'):
         return lib.header.ContentHeader(desc.get('weight', 0),
                                         desc['body_size']), ch
     if k == 'header':
+        if desc.get('via_setattr'):
+            props = lib.commands.Basic.Properties()
+            for n, v in desc['props'].items():
+                setattr(props, n, from_desc(v))
+            obj = lib.header.ContentHeader()
+            obj.weight = desc.get('weight', 0)
+            obj.body_size = desc['body_size']
+            obj.properties = props
+            return obj, ch
         props = lib.commands.Basic.Properties(
             **{n: from_desc(v) for n, v in desc['props'].items()})
         return lib.header.ContentHeader(desc.get('weight', 0),
@@ -537,6 +558,11 @@ def build_frame(desc):
             data = bytearray(data)
         elif desc.get('view'):
             data = memoryview(data)
+        if desc.get('via_setattr'):
+            # constructed around some other value, the real one assigned
+            obj = lib.body.ContentBody(b'x' * (len(data) // 2 + 3))
+            obj.value = data
+            return obj, ch
         return lib.body.ContentBody(data), ch
     if k == 'heartbeat':
         return lib.heartbeat.Heartbeat(), ch
